@@ -105,8 +105,17 @@ Fixpoint id_nets_v0 (l : list pnet) (total : N) : list (N * N * pnet) * N :=
 (* address bytes of the result: the network number plus the offset, written
    into as many bytes as the network number has (4 resp. 16) *)
 Definition addr_len (c : cidr) : N := bits (eff_fam c) / 8.
+(* a 16-byte value inside ::ffff:0:0/96 is what net.IP treats as an IPv4 address
+   (IP.To4() != nil); the selectors refuse to return it for an IPv6 network *)
 Definition addr_bytes (c : cidr) (a : N) : sres bytes :=
-  if N.size a <=? 8 * addr_len c then Ok (N_to_be (addr_len c) a) else Err EOffset.
+  if N.size a <=? 8 * addr_len c then
+    if (addr_len c =? 16) && (a / 2 ^ 32 =? 65535) then Err EOffset
+    else Ok (N_to_be (addr_len c) a)
+  else Err EOffset.
+
+(* IP.To4() != nil on a result *)
+Definition ip_is4 (b : bytes) : bool :=
+  (blen b =? 4) || ((blen b =? 16) && (be_to_N b / 2 ^ 32 =? 65535)).
 
 (* selectAddrFromSubnetOffset *)
 Definition addr_from_offset (p : pnet) (off : N) : sres phantom :=
